@@ -9,7 +9,7 @@
 //                                                   {k}{z}{er}{sae}{1toN} decorations, option bits; cb(Inst&) is called for each
 //   x86forms::build_operand(opd, out)               descriptor -> asmjit Operand_ (registers, memory, immediates; labels are the caller's)
 //   x86forms::inst_options(inst)                    InstOptions for the request (options + {z} + {er}/{sae}); extra reg = x86::k(inst.k) when inst.k != 0
-//   x86forms::write_request(w, inst)                the request part of an observation: f n m ops[] k z er sae opt  (compact JSON, see below)
+//   x86forms::write_request(w, inst)                the request part of an observation: f n m ops[] k z er sae opt eo (compact JSON, see below)
 //   x86forms::read_request(value)                   inverse of write_request (replay)
 //
 // Operand descriptor JSON (kept compact; 64-bit values as 8 little-endian bytes because TLC integers are 32-bit):
@@ -55,6 +55,7 @@ struct Inst {
   std::vector<Opd> ops;
   int k = 0, z = 0, er = -1, sae = 0;
   uint32_t opt = 0;
+  int eo = 0;              // emitter-level encoding options: 1 = EncodingOptions::kOptimizeForSize (the executor applies it)
 };
 
 static inline Opd R(const char* c, int id) { Opd o; o.t = 'r'; o.c = c; o.id = id; return o; }
@@ -159,7 +160,7 @@ static inline void write_request(vj::W& w, const Inst& ob) {
     w.endObj();
   }
   w.endArr();
-  w.kv("k", ob.k).kv("z", ob.z).kv("er", ob.er).kv("sae", ob.sae).kv("opt", (long long)ob.opt);
+  w.kv("k", ob.k).kv("z", ob.z).kv("er", ob.er).kv("sae", ob.sae).kv("opt", (long long)ob.opt).kv("eo", ob.eo);
 }
 
 // ---------------------------------------------------------------------------------------------------------------
@@ -200,7 +201,10 @@ static std::vector<Form> load_forms(const char* path) {
 // ---------------------------------------------------------------------------------------------------------------
 // value pools
 // ---------------------------------------------------------------------------------------------------------------
-struct Gen { bool thorough = false; vj::Rng* rng = nullptr; };
+// cross = true (C01): the special rows of the ModRM/SIB/absolute table are FULL for every form (only the mixed random rows are thinned),
+// the prefix-sensitive rows (absolute / rip / no-base) are crossed with a low and a high register bank and with the rex / lock options,
+// and immediates are drawn from the whole range the API accepts (boundary values of every width up to 64 bits), not only the row's field.
+struct Gen { bool thorough = false; vj::Rng* rng = nullptr; bool cross = false; };
 static Gen g_gen;      // set by the harness before instantiate()
 
 static std::vector<int> reg_ids(const std::string& c, int mode) {
@@ -236,10 +240,17 @@ static std::vector<int64_t> imm_pool(int bits, const std::string& sgn) {
                   0x7FFFFFFFFFFFFFFFll, int64_t(0x8000000000000000ull), 0x0123456789ABCDEFll, rnd(64), rnd(48)}; break;
   }
   (void)sgn;
+  if (g_gen.cross && bits >= 8) {
+    // the API takes any int64: boundary values of every width, signed and unsigned; whatever is accepted is judged by value
+    for (int64_t x : {int64_t(127), int64_t(128), int64_t(-128), int64_t(-129), int64_t(255), int64_t(256), int64_t(0x7FFF), int64_t(0x8000), int64_t(-0x8000), int64_t(-0x8001),
+                      int64_t(0xFFFF), int64_t(0x10000), int64_t(0x7FFFFFFF), int64_t(0x80000000ll), int64_t(-0x80000000ll), int64_t(-0x80000001ll), int64_t(0xFFFFF000ll),
+                      int64_t(0xFFFFFFFFll), int64_t(0x100000000ll), int64_t(0x7FFFFFFFFFFFFFFFll), int64_t(0x8000000000000000ull), int64_t(0xFFFFFFFF00000000ull), rnd(64)})
+      if (std::find(v.begin(), v.end(), x) == v.end()) v.push_back(x);
+  }
   return v;
 }
 
-struct MemShape { std::string bt; int b; std::string it; int i; int sh; int64_t d; int sg; int at; };
+struct MemShape { std::string bt; int b; std::string it; int i; int sh; int64_t d; int sg; int at; int px = 0; };   // px: prefix-sensitive row
 
 static std::vector<int64_t> disp_pool(int N) {
   std::vector<int64_t> v = {0, 1, -1, 127, 128, -128, -129, 2147483647ll, -2147483648ll, 0x1234, -0x4321};
@@ -300,9 +311,27 @@ static std::vector<MemShape> mem_grid(int mode, const std::string& vsib, int N, 
     add("gpw", 6, "", 0, 0, 128); add("gpw", 7, "", 0, 0, -128); add("gpw", 5, "", 0, 0, 0); add("gpw", 3, "", 0, 0, -129);
     add("gpw", 5, "", 0, 0, 0x7FFF); add("gpw", 6, "gpw", 3, 0, 4);   // [si+bx]: swapped order
   }
+  if (g_gen.cross) {
+    // prefix-sensitive rows (the encoder patches / inserts prefixes for them): absolute addresses around the signed / unsigned 32-bit
+    // limits with every address type, with and without segment; rip; no-base index.  Flagged px: crossed with register banks and options.
+    for (MemShape& s : g) if ((s.bt.empty() && !(s.it == "gpw")) || s.bt == "rip") s.px = 1;
+    auto addpx = [&](int64_t d, int sg, int at) {
+      for (const MemShape& s : g) if (s.bt.empty() && s.it.empty() && s.d == d && s.sg == sg && s.at == at) return;
+      g.push_back(MemShape{"", 0, "", 0, 0, d, sg, at, 1});
+    };
+    for (int64_t d : {int64_t(0x7FFFFFFF), int64_t(0x80000000ll), int64_t(0xFFFFF000ll), int64_t(0xFFFFFFFFll)})
+      for (int at : {0, 1, 2}) {
+        if (mode == 32 && at == 2) continue;
+        addpx(d, 0, at);
+        if (at != 2 && (d == int64_t(0x80000000ll) || d == int64_t(0x7FFFFFFF))) addpx(d, 6, at);     // gs:
+      }
+    if (mode == 64) { addpx(-1, 0, 1); addpx(int64_t(-0x80000000ll), 0, 1); }
+  }
   add(nat, 0, nat, 1, 2, 128, 6);                                    // gs:[ax+cx*4+128]
   add(nat, 3, "", 0, 0, 8, 1); add(nat, 3, "", 0, 0, 8, 4); add(nat, 5, "", 0, 0, 8, 3); add(nat, 3, "", 0, 0, 8, 2);   // es ds ss cs overrides
   // mixed rows
+  size_t nspecial = g.size();
+  if (g_gen.cross && !g_gen.thorough) want = nspecial + 8;            // special rows stay complete, only the mixed rows are few
   for (size_t r = 0; g.size() < want || r < 8; r++) {
     uint64_t x = g_gen.rng->next();
     MemShape s{nat, bases[x % bases.size()], (x >> 8) % 4 == 0 ? "" : nat, idxs[(x >> 12) % idxs.size()], int((x >> 20) % 4), nd(), 0, 0};
@@ -314,7 +343,7 @@ static std::vector<MemShape> mem_grid(int mode, const std::string& vsib, int N, 
     g.push_back(s);
     if (r > 4096) break;
   }
-  if (g.size() > want && want >= 8) {
+  if (g.size() > want && want >= 8 && !g_gen.cross) {
     // keep the special rows with priority but thin them deterministically
     std::vector<MemShape> h;
     double step = double(g.size()) / double(want);
@@ -352,12 +381,26 @@ static void instantiate(const Form& f, int mode, size_t rot, CB&& cb) {
     size_t x = cix; bool hasMem = false, hasLabel = false; int memJ = -1;
     for (size_t j = 0; j < nops; j++) { kind[j] = alts[j][x % alts[j].size()]; x /= alts[j].size(); if (kind[j] == 'm') { hasMem = true; memJ = int(j); } if (kind[j] == 'l') hasLabel = true; }
     std::vector<MemShape> grid;
+    struct Rnd { int row; int bank; uint32_t opt; };          // bank: -1 rotate, 0 ids 0..7, 1 ids 8..15
+    std::vector<Rnd> plan;
     size_t rounds = regWant;
     bool modrmMem = false, moffMem = false, implMem = false;
     if (hasMem) {
       const FOp& fo = f.ops[memJ];
       modrmMem = fo.fld == "rm"; moffMem = fo.fld == "moff"; implMem = !fo.memreg.empty();
-      if (modrmMem) { grid = mem_grid(mode, fo.vsib, fo.msz > 0 ? fo.msz : (f.esz > 0 ? f.esz : 4), memWant, rot); rounds = grid.size(); }
+      if (modrmMem) {
+        grid = mem_grid(mode, fo.vsib, fo.msz > 0 ? fo.msz : (f.esz > 0 ? f.esz : 4), memWant, rot); rounds = grid.size();
+        if (g_gen.cross && f.ok) {
+          for (size_t gi = 0; gi < grid.size(); gi++) {
+            if (!grid[gi].px) { plan.push_back(Rnd{int(gi), -1, 0}); continue; }
+            plan.push_back(Rnd{int(gi), 0, 0});
+            if (mode == 64) plan.push_back(Rnd{int(gi), 1, 0});
+            if (mode == 64 && f.pk == "L") plan.push_back(Rnd{int(gi), 0, O_REX});
+            if (f.lock) plan.push_back(Rnd{int(gi), int(gi % 2) & (mode == 64 ? 1 : 0), O_LOCK});
+          }
+          rounds = plan.size();
+        }
+      }
       else rounds = f.ok ? 8 : 2;
     }
     if (hasLabel) rounds = f.ok ? (g_gen.thorough ? 40 : 16) : 2;
@@ -365,9 +408,11 @@ static void instantiate(const Form& f, int mode, size_t rot, CB&& cb) {
     for (size_t j = 0; j < nops; j++) if (kind[j] == 'i' && f.ops[j].ibits) immRounds = std::max(immRounds, imm_pool(f.ops[j].ibits, f.ops[j].isgn).size());
     if (f.ok && !hasMem) rounds = std::max(rounds, immRounds);
     if (f.ok && hasMem && immRounds > rounds) rounds = immRounds;
+    auto planOf = [&](size_t r0) { return plan.empty() ? Rnd{int(grid.empty() ? 0 : r0 % grid.size()), -1, 0} : plan[r0 % plan.size()]; };
     for (size_t r0 = 0; r0 < rounds; r0++) {
       size_t r = r0 + rot;
       Inst ob; ob.f = f.id; ob.n = f.name; ob.m = mode;
+      Rnd pr = planOf(r0);
       bool omitImp = anyImp && (r0 % 2 == 1);
       bool bad = false;
       for (size_t j = 0; j < nops && !bad; j++) {
@@ -382,6 +427,12 @@ static void instantiate(const Form& f, int mode, size_t rot, CB&& cb) {
           std::string c = fo.regs[(((r0 + rot) * 2654435761u + j * 40503u) >> 9) % fo.regs.size()];     // gpb / gph alternate irregularly
           if (fo.fixed >= 0) { ob.ops.push_back(R(c.c_str(), fo.fixed)); continue; }
           std::vector<int> ids = reg_ids(c, mode);
+          if (pr.bank >= 0 && c != "gph" && (ids.size() > 8 || c == "creg")) {       // low / high bank for the prefix-sensitive rows
+            std::vector<int> sel;
+            for (int id : ids) if ((id >= 8 && id < 16) == (pr.bank == 1) && id < 16) sel.push_back(id);
+            if (!sel.empty()) ids = sel;
+          }
+          if (pr.bank == 1 && c == "gph") { c = "gpb"; ids = {8, 12, 15}; if (std::find(fo.regs.begin(), fo.regs.end(), "gpb") == fo.regs.end()) ids = {0}; }
           ob.ops.push_back(R(c.c_str(), ids[(r + 5 * j) % ids.size()]));
         } else if (kind[j] == 'i') {
           if (fo.iconst >= 0) { ob.ops.push_back(I(fo.iconst)); continue; }
@@ -396,7 +447,7 @@ static void instantiate(const Form& f, int mode, size_t rot, CB&& cb) {
           Opd o; o.t = 'm'; o.sz = fo.msz > 0 ? fo.msz : 0;
           if (fo.msz > 0 && r0 % 5 == 4 && !fo.bcst) o.sz = 0;             // size left unspecified
           if (modrmMem && int(j) == memJ) {
-            const MemShape& s = grid[r0 % grid.size()];
+            const MemShape& s = grid[size_t(pr.row) % grid.size()];
             o.bt = s.bt; o.b = s.b; o.it = s.it; o.i = s.i; o.sh = s.sh; o.d = s.d; o.sg = s.sg; o.at = s.at;
             if (fo.bcst && r0 % 3 == 1) {
               static const int vl[] = {128, 256, 512};
@@ -414,6 +465,11 @@ static void instantiate(const Form& f, int mode, size_t rot, CB&& cb) {
             int base = fo.memreg == "zdi" ? 7 : fo.memreg == "zsi" ? 6 : 0;
             o.bt = (r0 % 4 < 2) ? (mode == 64 ? "gpq" : "gpd") : (mode == 64 ? "gpd" : "gpw");
             o.b = base;
+            if (fo.memreg == "r32" || fo.memreg == "r64") {      // memory addressed by one register that is encoded as a register number
+              o.bt = fo.memreg == "r64" ? "gpq" : (r0 % 5 == 3 && mode == 32 ? "gpw" : "gpd");
+              std::vector<int> ids = reg_ids(o.bt, mode);
+              o.b = ids[(r + 5 * j) % ids.size()];
+            }
             if (fo.mseg == "ds" && r0 % 4 == 1) o.sg = 5;
             if (fo.mseg == "es" && r0 % 8 == 5) o.sg = 1;
           } else {
@@ -446,6 +502,12 @@ static void instantiate(const Form& f, int mode, size_t rot, CB&& cb) {
         if (r0 % 5 == 4) ob.opt |= O_LONG;
         if (hasLabel && r0 % 4 == 2) ob.opt |= O_SHORT;
       }
+      if (g_gen.cross && mode == 64 && r0 % 4 == 3) {      // optimize-for-size narrowings (mov r64, u32 -> mov r32, imm32 ...)
+        bool hasImm = false, hasQ = false;
+        for (const Opd& x : ob.ops) { if (x.t == 'i') hasImm = true; if (x.t == 'r' && x.c == "gpq") hasQ = true; }
+        if (hasImm && hasQ) ob.eo = 1;
+      }
+      if (pr.bank >= 0) ob.opt = (ob.opt & ~(O_REX | O_LOCK | O_XACQ | O_XREL)) | pr.opt;       // planned prefix options only
       if (!hasMem && r0 % 4 == 2) ob.opt |= O_MODMR;
       if (!hasMem && r0 % 8 == 5) ob.opt |= O_MODRM;
       cb(ob);
@@ -458,6 +520,7 @@ static inline Inst read_request(const vj::Value& v) {
   ob.f = int(v.find("f")->i()); ob.n = v.find("n")->s(); ob.m = int(v.find("m")->i());
   ob.k = int(v.find("k")->i()); ob.z = int(v.find("z")->i()); ob.er = int(v.find("er")->i()); ob.sae = int(v.find("sae")->i());
   ob.opt = uint32_t(v.find("opt")->i());
+  if (v.find("eo")) ob.eo = int(v.find("eo")->i());
   for (const vj::Value& o : v.find("ops")->arr) {
     Opd d; d.t = o.find("t")->s()[0];
     if (d.t == 'r') { d.c = o.find("c")->s(); d.id = int(o.find("id")->i()); }
